@@ -1,4 +1,5 @@
 import Proofs.HeapRun
+import Proofs.CloneGenEq
 
 /-!
 # C01 — a cloned agent is a faithful and fully independent copy of its parent
@@ -8,6 +9,11 @@ rule table of `EvolvableAlgorithm.clone` / `copy_attributes`.  Every theorem qua
 rule table, every initial agent and every history (`Reachable`) of
 clone / write (learn step, in-place mutation, append) / rebind (re-created networks and
 optimizers, re-assigned attributes) / discard operations.
+
+`C01_source_translation_*` (at the end): the same statements for the clone operation instantiated with the rule
+table GENERATED from the source text of `EvolvableAlgorithm.{inspect_attributes, copy_attributes, clone}` and
+`AgentWrapper.clone` (`Gen/CloneGen.lean`, harness/py2lean_clone.py; `genRule?` / `genRules` of
+`Proofs/CloneGenEq.lean` run the model's phase semantics on the generated phase list and decision table).
 -/
 namespace Heap
 
@@ -121,5 +127,110 @@ example :
       [Op.clone 0, Op.write 1 0 0 50, Op.clone 1]
     view w 0 = some [[1, 2], [3, 4], [5, 6], [7]] ∧ view w 1 = some [[50, 2], [3, 4], [1, 2], [7]] ∧
     view w 2 = some [[50, 2], [3, 4], [50, 2], [7]] := by decide
+
+/-! ## the same, for the rule table generated from the source text -/
+
+/-- **The rule table read from the source is the model's.**  Running the phase semantics of `Model/Heap.lean` on
+    the phase list and the `copy_attributes` decision table generated from base.py gives, attribute by attribute,
+    exactly `ruleOf false` — whatever the constructor defaults compare to (`eq`) and whatever hooks re-bind. -/
+theorem C01_source_translation_rule_table (specs : List (AttrSpec × Bool × Bool)) (hs : HooksSpareCtorArgs specs) :
+    genRules specs = some (specs.map fun x => ruleOf false x.1) :=
+  gen_rules_eq specs hs
+
+/-- by the source, the only attributes a clone shares with its parent are constructor arguments that are
+    tensors, arrays, callables or other plain objects -/
+theorem C01_source_translation_private_kinds (a : AttrSpec) (hw eq : Bool) (h : a.ctorArg = true → hw = false) :
+    genRule? a hw eq = some Rule.byRef ↔ ByRefSpec a := by
+  rw [gen_rule_eq a hw eq h, Option.some.injEq]
+  exact C01_private_kinds a
+
+/-- **Ownership invariant for the generated table**: after any history of clone (as the source performs it) /
+    write / rebind / discard, a cell reached through an attribute that is not a by-reference constructor
+    argument belongs to exactly one agent. -/
+theorem C01_source_translation_separation (specs : List (AttrSpec × Bool × Bool)) (rules : List Rule)
+    (hs : HooksSpareCtorArgs specs) (hg : genRules specs = some rules)
+    (w : World) (hw : Reachable rules w)
+    (i j : Nat) (ai aj : Agent) (k l : Nat) (ck cl : List Nat) (a : Nat)
+    (hi : w.agents[i]? = some (some ai)) (hj : w.agents[j]? = some (some aj))
+    (hk : ai[k]? = some ck) (hl : aj[l]? = some cl) (hak : a ∈ ck) (hal : a ∈ cl)
+    (hpriv : ∀ x, specs[k]? = some x → ¬ ByRefSpec x.1) : i = j :=
+  C01_separation_invariant rules w hw i j ai aj k l ck cl a hi hj hk hl hak hal (genRules_private hs hg k hpriv)
+
+/-- **Frame for the generated table**: training / mutating one agent in place changes no other agent's view. -/
+theorem C01_source_translation_frame (specs : List (AttrSpec × Bool × Bool)) (rules : List Rule)
+    (hs : HooksSpareCtorArgs specs) (hg : genRules specs = some rules)
+    (w w' : World) (hw : Reachable rules w) (i k c v : Nat)
+    (hwrite : w.write i k c v = some w') (hpriv : ∀ x, specs[k]? = some x → ¬ ByRefSpec x.1)
+    (j : Nat) (hij : j ≠ i) : view w' j = view w j :=
+  C01_frame rules w w' hw i k c v hwrite (genRules_private hs hg k hpriv) j hij
+
+/-- **Faithful copy for the generated table**, attribute group by attribute group: right after `clone i` the
+    child's attribute `k` holds the values of the parent's attribute `k` — of the online network `src` when the
+    source-derived rule is `resync src` — and, unless it is a by-reference constructor argument, lives in cells
+    allocated by this very clone. -/
+theorem C01_source_translation_clone_values (specs : List (AttrSpec × Bool × Bool)) (rules : List Rule)
+    (hs : HooksSpareCtorArgs specs) (hg : genRules specs = some rules)
+    (w : World) (hw : Reachable rules w) (i : Nat) (p : Agent) (hp : w.agents[i]? = some (some p)) :
+    ∃ child, (w.clone i).agents = w.agents ++ [some child] ∧
+      child.length = min specs.length p.length ∧
+      ∀ (k : Nat) (cs' : List Nat), child[k]? = some cs' →
+        ∃ x cs, specs[k]? = some x ∧ p[k]? = some cs ∧
+          vals (w.clone i).heap cs' = vals w.heap (srcOf p cs (ruleOf false x.1)) ∧
+          (¬ ByRefSpec x.1 → ∀ a ∈ cs', w.heap.length ≤ a) := by
+  obtain ⟨child, hag, hlen, hch⟩ := C01_clone_values rules w hw i p hp
+  have hrl : rules.length = specs.length := by
+    rw [gen_rules_eq specs hs] at hg
+    cases hg
+    simp
+  refine ⟨child, hag, by rw [hlen, hrl], ?_⟩
+  intro k cs' hcs'
+  obtain ⟨rule, cs, h1, h2, h3, h4⟩ := hch k cs' hcs'
+  rw [genRules_getElem? hs hg k] at h1
+  cases hx : specs[k]? with
+  | none => simp [hx] at h1
+  | some x =>
+    simp only [hx, Option.map_some, Option.some.injEq] at h1
+    subst h1
+    exact ⟨x, cs, rfl, h2, h3, fun hn => h4 (fun hb => hn ((C01_private_kinds x.1).mp hb))⟩
+
+/-- **Value-faithfulness by the source, per attribute kind**: following the phases of `clone` in source order,
+    every attribute but a callable ends up holding the parent's values — `copy_attributes` runs after the
+    mutation hook, so what a hook re-initialises is overwritten; an attribute the constructor built anew is either
+    found equal or deep-copied. -/
+theorem C01_source_translation_values (a : AttrSpec) (hw eq : Bool) (hk : a.kind ≠ Kind.callable) :
+    genFaithful? a hw eq = some true :=
+  gen_faithful_eq a hw eq hk
+
+/-- the attributes of an `AgentWrapper` are cloned by the same table (constructor re-invocation with the
+    attributes named like its parameters, then `copy_attributes`), and faithfully -/
+theorem C01_source_translation_wrapper (a : AttrSpec) (eq : Bool) (hk : a.kind.evolvable = false) :
+    genWrapperRule? a eq = some (ruleOf false a) ∧
+      (a.kind ≠ Kind.callable → genWrapperFaithful? a eq = some true) :=
+  ⟨gen_wrapper_rule_eq a eq hk, gen_wrapper_faithful_eq a eq hk⟩
+
+/-- what `inspect_attributes` lists, by the source: never a routine, an evolvable attribute (network,
+    optimizer), a TensorDict or a name with a leading / trailing underscore; with `input_args_only` only names of
+    constructor parameters; and the values handed to the constructor are the parent's own objects. -/
+theorem C01_source_translation_inspect (b : Bool) (m : CloneGen.Member) :
+    (CloneGen.inspectListed b m = true ↔
+      m.routine = false ∧ m.evolvable = false ∧ m.tensorDict = false ∧ m.leadingUnderscore = false ∧
+        m.trailingUnderscore = false ∧ (b = true → m.ctorParam = true)) ∧
+    shareOf (CloneGen.inspectValue b).share = some Share.byRef := by
+  refine ⟨?_, gen_inspectValue_eq b⟩
+  rw [gen_inspectListed_eq]
+  obtain ⟨r, e, t, l, tr, c⟩ := m
+  cases b <;> cases r <;> cases e <;> cases t <;> cases l <;> cases tr <;> cases c <;> simp [inspectListed]
+
+/-! non-vacuity: the generated table for a DQN-like attribute list, a reachable history under it, and the
+    hypotheses of the theorems above -/
+example : HooksSpareCtorArgs [(⟨Kind.network, false⟩, false, false), (⟨Kind.optimizer, false⟩, false, true),
+    (⟨Kind.target 0, false⟩, false, false), (⟨Kind.other, true⟩, false, true), (⟨Kind.tensor, false⟩, true, false)] := by
+  unfold HooksSpareCtorArgs; decide
+example : genRules [(⟨Kind.network, false⟩, false, false), (⟨Kind.optimizer, false⟩, false, true),
+    (⟨Kind.target 0, false⟩, false, false), (⟨Kind.other, true⟩, false, true), (⟨Kind.tensor, false⟩, true, false)]
+    = some [Rule.fresh, Rule.fresh, Rule.resync 0, Rule.byRef, Rule.fresh] := by decide
+example : ¬ ByRefSpec ⟨Kind.tensor, false⟩ ∧ ByRefSpec ⟨Kind.other, true⟩ := by
+  refine ⟨fun h => ?_, rfl, Or.inr (Or.inr (Or.inl rfl))⟩
+  exact absurd h.1 (by decide)
 
 end Heap
